@@ -16,10 +16,11 @@ pub mod c15;
 pub mod c16;
 pub mod c17;
 pub mod c18;
+pub mod c20;
 pub mod inject;
 
 pub fn all() -> Vec<&'static PropertyDef> {
-    vec![&c02::DEF, &c03::DEF, &c04::DEF, &c08::DEF, &c09::DEF, &c10::DEF, &c11::DEF, &c12::DEF, &c13::DEF, &c15::DEF, &c16::DEF, &c17::DEF, &c18::DEF]
+    vec![&c02::DEF, &c03::DEF, &c04::DEF, &c08::DEF, &c09::DEF, &c10::DEF, &c11::DEF, &c12::DEF, &c13::DEF, &c15::DEF, &c16::DEF, &c17::DEF, &c18::DEF, &c20::DEF]
 }
 
 pub fn find(id: &str) -> Option<&'static PropertyDef> {
